@@ -16,6 +16,7 @@ import (
 //	first-last-bucket-order      the first/last value of a bucket is chosen by place order, not by slot order
 //	first-last-slot-merge-order  the memdb merges write buffer and compressed buffer of a first/last field with the
 //	                             operands swapped (flush / window compaction keep the older value for last)
+//	(repaired in the tree, the model no longer mirrors it)
 //	memdb-miss-hides-files       a memory database that knows the metric but none of the filtered series fails the
 //	                             whole family filter, the family's files are not read; the same the other way round:
 //	                             files that hold the metric but none of the filtered series hide the memory database
@@ -241,38 +242,9 @@ func (m *altModel) eval(q Query) map[string]vset {
 			if end < famStart+familyMs-1 {
 				hi = (end - famStart) / slotMs
 			}
-			if f.mem != nil && q.Cond != "" && !m.sinceReopen[q.Cond] && f.memLo <= hi && lo <= f.memHi {
-				continue // memdb-miss-hides-files: the family contributes nothing
-			}
-			if q.Cond != "" {
-				// files that hold the metric in the queried slot range, none of them holds the filtered series:
-				// the file filter answers "not found" and the family's memory databases are dropped with it
-				inRange, holds := 0, 0
-				for _, p := range f.files {
-					plo, phi, has := int64(1<<40), int64(-1), false
-					for k := range p.cells {
-						sl := (k.t % familyMs) / slotMs
-						if sl < plo {
-							plo = sl
-						}
-						if sl > phi {
-							phi = sl
-						}
-						if k.series == q.Cond {
-							has = true
-						}
-					}
-					if phi >= 0 && plo <= hi && lo <= phi {
-						inRange++
-						if has {
-							holds++
-						}
-					}
-				}
-				if inRange > 0 && holds == 0 {
-					continue
-				}
-			}
+			// (memdb-miss-hides-files is repaired in the tree, commit 133f709: a place without the filtered series no
+			// longer drops the other places of the family)
+			_, _ = lo, hi
 			for name, s := range f.mem {
 				c := map[ckey]avals{}
 				for t, v := range s.compress {
